@@ -10,7 +10,9 @@
 import Jawk.Lemmas.Fuel
 import Jawk.Model.Run
 import Jawk.Spec.Run
+import Jawk.Props.C14
 import Jawk.Props.C16
+import Jawk.Props.C17
 namespace Jawk.Loc
 open Jawk Reader Fuel
 
@@ -663,5 +665,488 @@ example : (Reader.nextJson (Reader.ofBytes [91, 49, 93, 32, 91, 51, 44, 52, 93])
   (nextJson_agree_pulled (k := 4) (d := 4)
     (r₁ := Reader.ofBytes [91, 49, 93, 32, 91, 50, 93]) (r₂ := Reader.ofBytes [91, 49, 93, 32, 91, 51, 44, 52, 93])
     (by refine ⟨rfl, rfl, rfl, rfl, ?_⟩; decide) (wf_ofBytes _ _) (by decide) (.inr ⟨by decide, by decide⟩)).1
+
+/-! ### `lookahead_bound`: one byte of look-ahead, held in `cur` -/
+
+def curBit (r : Reader) : Nat := if r.cur.isSome then 1 else 0
+
+/-- Items pulled = items consumed (no longer pending) + the look-ahead byte now held − the look-ahead byte held
+before.  `pending` counts the look-ahead byte as unread, so this is exact bookkeeping for EVERY outcome. -/
+theorem lookahead_count (r : Reader) :
+    r.nextJson.2.pulled + r.nextJson.2.pending.length + curBit r
+      = r.pulled + r.pending.length + curBit r.nextJson.2 := by
+  have h := (nextValue_pcount (4 * r.rest.length + 10)).count r
+  have h1 := pending_length r
+  have h2 := pending_length r.nextJson.2
+  unfold Reader.nextJson at h1 h2 ⊢
+  simp only [curBit]
+  omega
+
+/-- `lookahead_bound`: `nextJson` pulls at most ONE item beyond what it consumed (removed from `pending`) -/
+theorem lookahead_bound (r : Reader) :
+    r.nextJson.2.pulled ≤ r.pulled + (r.pending.length - r.nextJson.2.pending.length) + 1 := by
+  have h := lookahead_count r
+  have h1 : curBit r.nextJson.2 ≤ 1 := by simp only [curBit]; split <;> omega
+  omega
+
+/-- what a successful action did to the look-ahead byte: either nothing was pulled (the stream is untouched
+and `cur` is unchanged or was cleared at the end of input), or something was pulled and the byte held in `cur`,
+if any, is the LAST item pulled -/
+def LookStep (r r' : Reader) : Prop :=
+  r'.rest <:+ r.rest ∧
+  ((r'.pulled = r.pulled ∧ r'.rest = r.rest ∧ (r'.cur = r.cur ∨ r'.cur = none)) ∨
+   (r.pulled < r'.pulled ∧ ∀ b, r'.cur = some b → ∃ pre, r.rest = pre ++ RItem.byte b :: r'.rest))
+
+theorem LookStep.refl (r : Reader) : LookStep r r := ⟨List.suffix_refl _, .inl ⟨rfl, rfl, .inl rfl⟩⟩
+
+theorem LookStep.trans {a b c : Reader} (h1 : LookStep a b) (h2 : LookStep b c) : LookStep a c := by
+  obtain ⟨s1, h1⟩ := h1
+  obtain ⟨s2, h2⟩ := h2
+  refine ⟨s2.trans s1, ?_⟩
+  rcases h1 with ⟨p1, r1, c1⟩ | ⟨p1, l1⟩
+  · rcases h2 with ⟨p2, r2, c2⟩ | ⟨p2, l2⟩
+    · refine .inl ⟨p2.trans p1, r2.trans r1, ?_⟩
+      rcases c2 with c2 | c2
+      · rcases c1 with c1 | c1
+        · exact .inl (c2.trans c1)
+        · exact .inr (c2.trans c1)
+      · exact .inr c2
+    · refine .inr ⟨by omega, fun x hx => ?_⟩
+      rw [← r1]; exact l2 x hx
+  · rcases h2 with ⟨p2, r2, c2⟩ | ⟨p2, l2⟩
+    · refine .inr ⟨by omega, fun x hx => ?_⟩
+      rcases c2 with c2 | c2
+      · rw [r2]; exact l1 x (c2 ▸ hx)
+      · rw [c2] at hx; cases hx
+    · refine .inr ⟨by omega, fun x hx => ?_⟩
+      obtain ⟨pre, hpre⟩ := l2 x hx
+      obtain ⟨t, ht⟩ := s1
+      exact ⟨t ++ pre, by rw [← ht, hpre, List.append_assoc]⟩
+
+structure PLook {α} (m : PM α) : Prop where
+  look : ∀ r a r', m r = (.ok a, r') → LookStep r r'
+
+theorem plook_pure {α} (a : α) : PLook (pure a : PM α) :=
+  ⟨fun r a' r' h => by cases h; exact LookStep.refl _⟩
+theorem plook_fail {α} (e : PErr) : PLook (PM.fail e : PM α) := ⟨fun r a' r' h => by cases h⟩
+theorem plook_locErr {α} (mk : Loc → PErr) : PLook (locErr mk : PM α) := ⟨fun r a' r' h => by cases h⟩
+
+theorem plook_bind {α β} {m : PM α} {f : α → PM β} (hm : PLook m) (hf : ∀ a, PLook (f a)) :
+    PLook (m >>= f) := by
+  constructor
+  intro r b r' h
+  simp only [PM.bind_apply] at h
+  cases h1 : m r with
+  | mk res r1 =>
+    rw [h1] at h
+    cases res with
+    | error e => cases h
+    | ok a => exact (hm.look r a r1 h1).trans ((hf a).look r1 b r' h)
+
+theorem next_plook : PLook Reader.next := by
+  constructor
+  intro r a r' h
+  cases r with
+  | mk rest cur eof loc pulled =>
+    cases eof with
+    | true => cases h; exact LookStep.refl _
+    | false =>
+      cases rest with
+      | nil => cases h; exact ⟨List.suffix_refl _, .inl ⟨rfl, rfl, .inr rfl⟩⟩
+      | cons it rest =>
+        cases it with
+        | err => cases h
+        | byte b =>
+          cases h
+          refine ⟨List.suffix_cons _ _, .inr ⟨Nat.lt_succ_self _, fun x hx => ?_⟩⟩
+          cases hx
+          exact ⟨[], rfl⟩
+
+theorem peek_plook : PLook Reader.peek := by
+  constructor
+  intro r a r' h
+  unfold Reader.peek at h
+  split at h
+  · cases h; exact LookStep.refl _
+  · exact next_plook.look r a r' h
+
+macro "plook_step" : tactic => `(tactic| first
+  | with_reducible exact plook_pure _
+  | with_reducible exact plook_fail _
+  | with_reducible exact plook_locErr _
+  | with_reducible exact next_plook
+  | with_reducible exact peek_plook
+  | with_reducible assumption
+  | with_reducible apply plook_bind
+  | intro _
+  | split)
+
+syntax "plook" ("[" term,* "]")? : tactic
+macro_rules
+  | `(tactic| plook) => `(tactic| repeat' plook_step)
+  | `(tactic| plook [$ts,*]) =>
+    `(tactic| repeat' (first | plook_step $[| with_reducible exact $ts]*))
+
+theorem eatWhitespace_plook (fuel : Nat) : PLook (eatWhitespace fuel) := by
+  induction fuel with
+  | zero => exact plook_fail _
+  | succ fuel ih => unfold eatWhitespace; plook
+
+theorem readDigits_plook (fuel : Nat) (acc : List Byte) : PLook (readDigits fuel acc) := by
+  induction fuel generalizing acc with
+  | zero => exact plook_fail _
+  | succ fuel ih => unfold readDigits; plook [ih _]
+
+theorem readWordTail_plook (word : String) (es : List Byte) : PLook (readWordTail word es) := by
+  induction es with
+  | nil => unfold readWordTail; plook
+  | cons e es ih => unfold readWordTail; plook
+
+theorem readHex4_plook (k acc : Nat) : PLook (readHex4 k acc) := by
+  induction k generalizing acc with
+  | zero => exact plook_pure _
+  | succ k ih => unfold readHex4; plook [ih _]
+
+theorem readStringLoop_plook (fuel : Nat) (acc : List Byte) : PLook (readStringLoop fuel acc) := by
+  induction fuel generalizing acc with
+  | zero => exact plook_fail _
+  | succ fuel ih => unfold readStringLoop; plook [ih _, readHex4_plook _ _]
+
+theorem parseToDouble_plook (t : List Byte) : PLook (parseToDouble t) := by
+  unfold parseToDouble; plook
+
+theorem readNumber_plook (fuel : Nat) : PLook (readNumber fuel) := by
+  unfold readNumber
+  plook [readDigits_plook _ _, parseToDouble_plook _]
+
+structure ValueLook (fuel : Nat) : Prop where
+  value : PLook (nextValue fuel)
+  array : PLook (readArray fuel)
+  arrayLoop : ∀ acc, PLook (readArrayLoop fuel acc)
+  object : PLook (readObject fuel)
+  objectLoop : ∀ acc, PLook (readObjectLoop fuel acc)
+
+theorem valueLook (fuel : Nat) : ValueLook fuel := by
+  induction fuel with
+  | zero =>
+    refine ⟨?_, ?_, fun _ => ?_, ?_, fun _ => ?_⟩
+    · unfold nextValue; exact plook_fail _
+    · unfold readArray; exact plook_fail _
+    · unfold readArrayLoop; exact plook_fail _
+    · unfold readObject; exact plook_fail _
+    · unfold readObjectLoop; exact plook_fail _
+  | succ fuel ih =>
+    refine ⟨?_, ?_, fun _ => ?_, ?_, fun _ => ?_⟩
+    · unfold nextValue
+      plook [eatWhitespace_plook _, readWordTail_plook _ _, readStringLoop_plook _ _, readNumber_plook _,
+        ih.array, ih.object]
+    · unfold readArray
+      plook [eatWhitespace_plook _, ih.arrayLoop _]
+    · unfold readArrayLoop
+      plook [eatWhitespace_plook _, ih.arrayLoop _, ih.value]
+    · unfold readObject
+      plook [eatWhitespace_plook _, ih.objectLoop _]
+    · unfold readObjectLoop
+      plook [eatWhitespace_plook _, ih.objectLoop _, ih.value]
+
+/-- after a successful `nextJson` that pulled something, the look-ahead byte (if one is held) is the last item
+pulled: every earlier item is consumed, and this one is still `pending` — it is what the next call starts from -/
+theorem nextJson_lookahead (r : Reader) {x : Option JV} {r' : Reader} (h : r.nextJson = (.ok x, r')) :
+    LookStep r r' := (valueLook _).value.look r x r' h
+
+theorem nextJson_lookahead_last (r : Reader) {x : Option JV} {r' : Reader} {b : Byte}
+    (h : r.nextJson = (.ok x, r')) (hp : r.pulled < r'.pulled) (hc : r'.cur = some b) :
+    ∃ pre, r.rest = pre ++ RItem.byte b :: r'.rest ∧ r'.pending = RItem.byte b :: r'.rest := by
+  obtain ⟨_, h1 | h1⟩ := nextJson_lookahead r h
+  · omega
+  · obtain ⟨pre, hpre⟩ := h1.2 b hc
+    exact ⟨pre, hpre, by simp [Reader.pending, hc]⟩
+
+/-- `[1] [2]`: the first call pulls `[1]` and the blank (4 items), the blank is held as look-ahead -/
+example : (Reader.nextJson (Reader.ofBytes [91, 49, 93, 32, 91, 50, 93])).2.cur = some 32
+    ∧ (Reader.nextJson (Reader.ofBytes [91, 49, 93, 32, 91, 50, 93])).2.pulled = 4
+    ∧ (Reader.nextJson (Reader.ofBytes [91, 49, 93, 32, 91, 50, 93])).2.pending.length = 4 := by decide
+
+/-! ### 2. (C14) `--take` stops reading -/
+
+section Loop
+variable (orc : Oracles) (c : Cfg) (p : Pipeline)
+
+/-- any reflexive, transitive relation that every `nextJson` call respects relates the reader after the first
+`nextJson` of a loop that ends normally to the final reader -/
+theorem readLoop_first_rel (Q : Reader → Reader → Prop) (hrefl : ∀ r, Q r r)
+    (htrans : ∀ a b c, Q a b → Q b c → Q a c) (hstep : ∀ r, Q r r.nextJson.2)
+    (fuel : Nat) (r : Reader) (inFile : Nat) (s : RunState)
+    {s' : RunState} {r' : Reader} {d : Decision}
+    (h : readLoop orc c p (fuel + 1) r inFile s = .ok (s', r', d)) : Q r.nextJson.2 r' := by
+  induction fuel generalizing r inFile s with
+  | zero =>
+    rw [readLoop] at h
+    dsimp only at h
+    split at h
+    · rename_i v r1 heq
+      rw [heq]
+      split at h
+      · simp [readLoop] at h
+      · split at h
+        · cases h
+        · cases h; exact hrefl _
+        · simp [readLoop] at h
+    · rename_i r1 heq
+      rw [heq]; cases h; exact hrefl _
+    · split at h
+      · cases h
+      · split at h
+        · simp [readLoop] at h
+        · cases h
+        · split at h
+          · cases h
+          · simp [readLoop] at h
+        · split at h
+          · cases h
+          · simp [readLoop] at h
+  | succ fuel ih =>
+    rw [readLoop] at h
+    dsimp only at h
+    split at h
+    · rename_i v r1 heq
+      rw [heq]
+      have hm := hstep r1
+      split at h
+      · exact htrans _ _ _ hm (ih _ _ _ h)
+      · split at h
+        · cases h
+        · cases h; exact hrefl _
+        · exact htrans _ _ _ hm (ih _ _ _ h)
+    · rename_i r1 heq
+      rw [heq]; cases h; exact hrefl _
+    · rename_i e r1 heq
+      rw [heq]
+      have hm := hstep r1
+      split at h
+      · cases h
+      · split at h
+        · exact htrans _ _ _ hm (ih _ _ _ h)
+        · cases h
+        · split at h
+          · cases h
+          · exact htrans _ _ _ hm (ih _ _ _ h)
+        · split at h
+          · cases h
+          · exact htrans _ _ _ hm (ih _ _ _ h)
+
+theorem readLoop_rel (Q : Reader → Reader → Prop) (hrefl : ∀ r, Q r r)
+    (htrans : ∀ a b c, Q a b → Q b c → Q a c) (hstep : ∀ r, Q r r.nextJson.2)
+    (fuel : Nat) (r : Reader) (inFile : Nat) (s : RunState)
+    {s' : RunState} {r' : Reader} {d : Decision}
+    (h : readLoop orc c p fuel r inFile s = .ok (s', r', d)) : Q r r' := by
+  cases fuel with
+  | zero => simp [readLoop] at h
+  | succ fuel => exact htrans _ _ _ (hstep r) (readLoop_first_rel orc c p Q hrefl htrans hstep fuel r inFile s h)
+
+/-- the first `nextJson` of a loop that ends normally examined no position beyond the final reader's -/
+theorem readLoop_first_pos (fuel : Nat) (r : Reader) (inFile : Nat) (s : RunState)
+    {s' : RunState} {r' : Reader} {d : Decision}
+    (h : readLoop orc c p (fuel + 1) r inFile s = .ok (s', r', d)) : pos r.nextJson.2 ≤ pos r' :=
+  readLoop_first_rel orc c p (fun a b => pos a ≤ pos b) (fun _ => Nat.le_refl _)
+    (fun _ _ _ => Nat.le_trans) nextJson_pos_mono fuel r inFile s h
+
+theorem readLoop_pos_mono (fuel : Nat) (r : Reader) (inFile : Nat) (s : RunState)
+    {s' : RunState} {r' : Reader} {d : Decision}
+    (h : readLoop orc c p fuel r inFile s = .ok (s', r', d)) : pos r ≤ pos r' :=
+  readLoop_rel orc c p (fun a b => pos a ≤ pos b) (fun _ => Nat.le_refl _)
+    (fun _ _ _ => Nat.le_trans) nextJson_pos_mono fuel r inFile s h
+
+/-- `pulled_counts` for the whole loop -/
+theorem readLoop_count (fuel : Nat) (r : Reader) (inFile : Nat) (s : RunState)
+    {s' : RunState} {r' : Reader} {d : Decision}
+    (h : readLoop orc c p fuel r inFile s = .ok (s', r', d)) :
+    r'.pulled + r'.rest.length = r.pulled + r.rest.length :=
+  readLoop_rel orc c p (fun a b => b.pulled + b.rest.length = a.pulled + a.rest.length) (fun _ => rfl)
+    (fun _ _ _ h1 h2 => h2.trans h1) (fun r => (nextValue_pcount _).count r) fuel r inFile s h
+
+theorem readLoop_mono (fuel : Nat) (r : Reader) (inFile : Nat) (s : RunState)
+    {s' : RunState} {r' : Reader} {d : Decision}
+    (h : readLoop orc c p fuel r inFile s = .ok (s', r', d)) : Mono r r' :=
+  readLoop_rel orc c p Mono Mono.refl (fun _ _ _ => Mono.trans) nextJson_mono fuel r inFile s h
+
+/-- LOCALITY OF THE READ LOOP: if the loop over `r` ends normally (end of input, or `Break`) having examined
+only stream positions below `N`, then over any reader `r₂` that agrees with `r` below `N` — and with any fuel that
+is at least as large — it ends in the same state, with the same decision, having pulled the same number of items. -/
+theorem readLoop_local {N : Nat} (fuel fuel₂ : Nat) (r r₂ : Reader) (inFile : Nat) (s : RunState)
+    {s' : RunState} {r' : Reader} {d : Decision} (hw : WF r) (hag : AgreeTo N r r₂)
+    (h : readLoop orc c p fuel r inFile s = .ok (s', r', d)) (hN : pos r' ≤ N) (hf : fuel ≤ fuel₂) :
+    ∃ r₂', readLoop orc c p fuel₂ r₂ inFile s = .ok (s', r₂', d) ∧ AgreeTo N r' r₂' := by
+  induction fuel generalizing fuel₂ r r₂ inFile s with
+  | zero => simp [readLoop] at h
+  | succ fuel ih =>
+    obtain ⟨fuel₂, rfl⟩ : ∃ n, fuel₂ = n + 1 := ⟨fuel₂ - 1, by omega⟩
+    have hfirst := readLoop_first_pos orc c p fuel r inFile s h
+    obtain ⟨e1, a1⟩ := nextJson_local hag hw (Nat.le_trans hfirst hN)
+    have hw1 : WF r.nextJson.2 := nextJson_wf r hw
+    rcases hn : r.nextJson with ⟨res, r1⟩
+    rcases hn₂ : r₂.nextJson with ⟨res₂, r1₂⟩
+    rw [hn, hn₂] at e1 a1
+    rw [hn] at hw1
+    dsimp only at e1 a1 hw1
+    subst e1
+    have ih' := fun inFile s h => ih (fuel₂ := fuel₂) r1 r1₂ inFile s hw1 a1 h (by omega)
+    rw [readLoop] at h ⊢
+    simp only [hn, hn₂] at h ⊢
+    rw [← hag.loc]
+    cases res₂ with
+    | error e =>
+      dsimp only at h ⊢
+      cases hrec : e.canRecover with
+      | false => simp [hrec] at h
+      | true =>
+        simp only [hrec, Bool.not_true, Bool.false_eq_true, if_false] at h ⊢
+        cases hpol : c.onError with
+        | ignore => simp only [hpol] at h ⊢; exact ih' _ _ h
+        | panic => simp [hpol] at h
+        | stdout =>
+          simp only [hpol] at h ⊢
+          cases hfl : (s.out.put (reportBytes e)).failed with
+          | true => simp [hfl] at h
+          | false =>
+            simp only [hfl, Bool.false_eq_true, if_false] at h ⊢
+            exact ih' _ _ h
+        | stderr =>
+          simp only [hpol] at h ⊢
+          cases hfl : (s.err.put (reportBytes e)).failed with
+          | true => simp [hfl] at h
+          | false =>
+            simp only [hfl, Bool.false_eq_true, if_false] at h ⊢
+            exact ih' _ _ h
+    | ok o =>
+      cases o with
+      | none =>
+        dsimp only at h ⊢
+        cases h
+        exact ⟨r1₂, rfl, a1⟩
+      | some v =>
+        dsimp only at h ⊢
+        rw [← a1.loc]
+        cases hk : (c.onlyObjectsAndArrays && !v.isObjOrArr) with
+        | true =>
+          simp only [hk, if_true] at h ⊢
+          exact ih' _ _ h
+        | false =>
+          simp only [hk, Bool.false_eq_true, if_false] at h ⊢
+          cases hp : process orc p.sink p.sinkLen p.cfgs s.sts s.out
+              { input := v, ictx := some { startLoc := r.loc, endLoc := r1.loc, fileIndex := inFile, index := s.index } } with
+          | error f => simp [hp] at h
+          | ok x =>
+            obtain ⟨ps, dec⟩ := x
+            cases dec with
+            | brk =>
+              simp only [hp] at h ⊢
+              cases h
+              exact ⟨r1₂, rfl, a1⟩
+            | cont =>
+              simp only [hp] at h ⊢
+              exact ih' _ _ h
+
+/-- (C14) `take_stops`: the loop over `r` answered `Break` after pulling `d = r'.pulled - r.pulled` items.  Then over
+ANY reader `r₂` in the same state whose stream agrees on the first `d + 1` positions — whatever follows, finite
+or not — and with any larger fuel, the loop ends with the same state (same rows written, same stage states) and
+has pulled exactly as many items. -/
+theorem take_stops (fuel fuel₂ : Nat) (r r₂ : Reader) (inFile : Nat) (s : RunState)
+    {s' : RunState} {r' : Reader} (hw : WF r)
+    (h : readLoop orc c p fuel r inFile s = .ok (s', r', .brk))
+    (hag : Agree (r'.pulled - r.pulled + 1) r r₂) (hf : fuel ≤ fuel₂) :
+    ∃ r₂', readLoop orc c p fuel₂ r₂ inFile s = .ok (s', r₂', .brk) ∧ r₂'.pulled = r'.pulled := by
+  have h1 := pos_le_pulled r'
+  have h2 := pulled_le_pos r
+  obtain ⟨r₂', e, a⟩ := readLoop_local orc c p fuel fuel₂ r r₂ inFile s hw hag h (by omega) hf
+  exact ⟨r₂', e, a.pulled.symm⟩
+
+/-- the same when the loop stopped without having seen the end of input: agreement on the `d` items pulled is
+enough -/
+theorem take_stops_no_eof (fuel fuel₂ : Nat) (r r₂ : Reader) (inFile : Nat) (s : RunState)
+    {s' : RunState} {r' : Reader} (hw : WF r)
+    (h : readLoop orc c p fuel r inFile s = .ok (s', r', .brk)) (he : r'.eof = false)
+    (hag : Agree (r'.pulled - r.pulled) r r₂) (hf : fuel ≤ fuel₂) :
+    ∃ r₂', readLoop orc c p fuel₂ r₂ inFile s = .ok (s', r₂', .brk) ∧ r₂'.pulled = r'.pulled := by
+  have h1 := pos_of_not_eof he
+  have h2 := pulled_le_pos r
+  obtain ⟨r₂', e, a⟩ := readLoop_local orc c p fuel fuel₂ r r₂ inFile s hw hag h (by omega) hf
+  exact ⟨r₂', e, a.pulled.symm⟩
+
+theorem agree_ofItems_append (items cont : List RItem) (name : Option Str) :
+    AgreeTo items.length (Reader.ofItems items name) (Reader.ofItems (items ++ cont) name) := by
+  refine ⟨rfl, rfl, rfl, rfl, ?_⟩
+  show List.take (items.length - 0) items = List.take (items.length - 0) (items ++ cont)
+  simp
+
+/-- the run on `items ++ cont` equals the run on `items`, for every continuation `cont`, when the loop over
+`items` answered `Break` before it saw the end of `items` -/
+theorem take_stops_append (items cont : List RItem) (name : Option Str) (fuel fuel₂ : Nat) (inFile : Nat)
+    (s : RunState) {s' : RunState} {r' : Reader}
+    (h : readLoop orc c p fuel (Reader.ofItems items name) inFile s = .ok (s', r', .brk)) (he : r'.eof = false)
+    (hf : fuel ≤ fuel₂) :
+    ∃ r₂', readLoop orc c p fuel₂ (Reader.ofItems (items ++ cont) name) inFile s = .ok (s', r₂', .brk)
+      ∧ r₂'.pulled = r'.pulled := by
+  have hcnt := readLoop_count orc c p _ _ _ _ h
+  have hpos := pos_of_not_eof he
+  have h0 : (Reader.ofItems items name).pulled = 0 := rfl
+  have h1 : (Reader.ofItems items name).rest = items := rfl
+  rw [h0, h1] at hcnt
+  obtain ⟨r₂', e, a⟩ := readLoop_local orc c p fuel fuel₂ _ _ inFile s (wf_ofItems _ _)
+    (agree_ofItems_append items cont name) h (by omega) hf
+  exact ⟨r₂', e, a.pulled.symm⟩
+
+/-- at the level of the file loop: later bytes of the file, and later files, are irrelevant -/
+theorem take_stops_sources (items cont : List RItem) (name : Option Str) (rest rest₂ : List Source)
+    (s : RunState) {s' : RunState} {r' : Reader}
+    (h : readLoop orc c p (items.length + 2) (Reader.ofItems items name) 0 s = .ok (s', r', .brk))
+    (he : r'.eof = false) :
+    readSources orc c p (⟨name, items ++ cont⟩ :: rest₂) s = readSources orc c p (⟨name, items⟩ :: rest) s := by
+  obtain ⟨r₂', e, a⟩ := take_stops_append orc c p items cont name _ ((items ++ cont).length + 2) 0 s h he
+    (by simp)
+  have e' : readLoop orc c p ((⟨name, items ++ cont⟩ : Source).items.length + 2)
+      (Reader.ofItems (⟨name, items ++ cont⟩ : Source).items (⟨name, items ++ cont⟩ : Source).name) 0 s
+      = .ok (s', r₂', .brk) := e
+  have h' : readLoop orc c p ((⟨name, items⟩ : Source).items.length + 2)
+      (Reader.ofItems (⟨name, items⟩ : Source).items (⟨name, items⟩ : Source).name) 0 s
+      = .ok (s', r', .brk) := h
+  rw [C14.files_after_break_not_opened orc c p _ rest₂ s s' r₂' e',
+    C14.files_after_break_not_opened orc c p _ rest s s' r' h', a]
+
+/-- (C14) at the level of a whole run: if the read loop over the first source answers `Break` before it saw the end
+of `items`, the run (result, stdout, stderr, items pulled) does not depend on what follows `items` in that source
+nor on the later sources -/
+theorem take_stops_run (sources sources₂ : List Source) (items cont : List RItem) (name : Option Str)
+    (wOut wErr w0 : Writer) {s' : RunState} {r' : Reader}
+    (hb : build orc c = .ok p) (hs : sinkStart p.sink p.titles wOut = .ok w0)
+    (h : readLoop orc c p (items.length + 2) (Reader.ofItems items name) 0
+          { sts := p.sts, out := w0, err := wErr } = .ok (s', r', .brk))
+    (he : r'.eof = false) :
+    run orc c (⟨name, items ++ cont⟩ :: sources₂) wOut wErr = run orc c (⟨name, items⟩ :: sources) wOut wErr := by
+  have := take_stops_sources orc c p items cont name sources sources₂ _ h he
+  simp only [run, hb, hs, this]
+
+end Loop
+
+/-! Non-vacuity: `--take 1` over `[1] [2]` -/
+
+def takeOne : Pipeline :=
+  { cfgs := [.limit 0 (some 1)], sts := [.limit 0 0], sink := .json {} ['\n'], sinkLen := 0, titles := [] }
+
+theorem build_takeOne (orc : Oracles) : build orc { take := some 1 } = .ok takeOne := rfl
+
+/-- the loop over `[1] [2]` breaks after the first value, having pulled 4 items, the end of input not seen -/
+theorem takeOne_breaks (orc : Oracles) :
+    ∃ s' r', readLoop orc { take := some 1 } takeOne 9 (Reader.ofItems (cleanInput [91, 49, 93, 32, 91, 50, 93]) none) 0
+      { sts := takeOne.sts, out := {}, err := {} } = .ok (s', r', .brk) ∧ r'.eof = false ∧ r'.pulled = 4 :=
+  ⟨_, _, rfl, rfl, rfl⟩
+
+/-- so whatever follows `[1] [2]` on stdin — including read faults — and whatever files follow, the run is the
+same -/
+example (orc : Oracles) (cont : List RItem) (more : List Source) :
+    run orc { take := some 1 } (⟨none, cleanInput [91, 49, 93, 32, 91, 50, 93] ++ cont⟩ :: more) {} {}
+      = run orc { take := some 1 } [⟨none, cleanInput [91, 49, 93, 32, 91, 50, 93]⟩] {} {} := by
+  obtain ⟨s', r', h, he, _⟩ := takeOne_breaks orc
+  exact take_stops_run orc _ takeOne [] more _ cont none {} {} {} (build_takeOne orc) rfl h he
 
 end Jawk.Loc
